@@ -7,4 +7,5 @@ tools/pmt.sh -j "$J" \
   mutants/neutral/N1-unusual-constructs.diff:C09,C10,C11,C12,C08,C01 \
   mutants/neutral/N2-arch-specific-files.diff:C09,C03,C04,C06,C13 \
   mutants/neutral/N3-js-export-wrappers.diff:C20 \
-  mutants/neutral/N4-decode-padding-refactor.diff:C07,C01,C11,C12
+  mutants/neutral/N4-decode-padding-refactor.diff:C07,C01,C11,C12 \
+  mutants/neutral/N5-random-read-ahead-block.diff:C08,C11,C18
